@@ -94,6 +94,20 @@ pub fn work(ctx: &Ctx, rep: &mut Report, g1: (usize, usize), g2_k: (usize, usize
         }
         rep.count("g2_histories", ctx.units(total).count() as u64);
         rep.count_s(format!("g2_alphabet_{}_depth_{}_complete", alpha.len(), k), 1);
+        if ctx.thorough {
+            // one level deeper over each half of the alphabet (even / odd atoms)
+            for half in 0..2 {
+                let sub: Vec<&'static str> = alpha.iter().copied().skip(half).step_by(2).collect();
+                let per = g2_count(&sub, k + 1);
+                let total = per * G2_SIZES.len();
+                for u in ctx.units(total) {
+                    let h = g2_history(G2_SIZES[u / per], &sub, u % per, k + 1);
+                    run_one(prop, &h, rep);
+                }
+                rep.count("g2_histories", ctx.units(total).count() as u64);
+                rep.count_s(format!("g2_half_alphabet_{}_depth_{}_complete", sub.len(), k + 1), 1);
+            }
+        }
     }
     // G3 state x command cross product
     if g3 {
